@@ -575,7 +575,7 @@ class InProtocolBase(ProtocolMixin):
         match = _duration_re.match(string)
         if match is None:
             raise ValidationError(string,
-                "Time data '%%s' does not match regex '%s'" %
+                "Time data %%r does not match regex '%s'" %
                                                         (_duration_re.pattern,))
 
         duration = match.groupdict(0)
